@@ -55,8 +55,8 @@ ASSUMPTIONS = [
 ]
 COMPONENTS = engine_p0.components()
 TIERS = {
-    "quick": {"histories": 224, "budget_s": 75, "timeout": 240, "batch": 112, "shrink_s": 25},
-    "thorough": {"histories": 3200, "budget_s": 800, "timeout": 300, "batch": 320, "shrink_s": 60},
+    "quick": {"histories": 256, "budget_s": 60, "timeout": 240, "batch": 64, "shrink_s": 20},
+    "thorough": {"histories": 4800, "budget_s": 780, "timeout": 300, "batch": 320, "shrink_s": 45},
 }
 SHRINK_EACH_IDENTITY = True
 MAX_REPORTS = 12
@@ -151,24 +151,23 @@ def check_job(r, V):
     # ---- land identity
     before_waste = grown * (1 - f)
     want = before_waste * keep
-    trunc = explained_by_truncation(prod, before_waste, keep) or explained_by_truncation(prod, grown, keep)
     if has_gh:
-        ok = close(prod, want)
         i, rel = worst(prod, want)
-        if ok:
+        if close(prod, want):
+            verdict = None
             V.resid("land_identity", rel)
-        if ok or not trunc:
-            missing = (not ok) and close(prod, grown * keep) or ((not ok) and explained_by_truncation(prod, grown, keep))
-            V.check("land_identity", ok, {"branch": branch, "kind": "greenhouse_fraction_not_subtracted" if missing else "value"},
-                    lambda: _wit(r, month=i, production=float(prod[i]), grown=float(grown[i]), greenhouse_fraction=float(f[i]),
-                                 expected=float(want[i]), ratio_production_to_grown_after_waste=float(prod[i] / (grown[i] * keep)) if grown[i] * keep else None),
-                    "outdoor output is not the amount grown x (1 - greenhouse fraction) x (1 - distribution waste)")
+        elif explained_by_truncation(prod, before_waste, keep):
+            verdict = None  # the land factor is there; the series is truncated -> no_quantisation reports it
+        elif close(prod, grown * keep) or explained_by_truncation(prod, grown, keep):
+            verdict = "greenhouse_fraction_not_subtracted"
         else:
-            # deviation explained exactly by integer truncation of grown x (1 - f): reported below; but was the
-            # fraction subtracted at all? (truncation of grown alone would mean it was not)
-            sub = explained_by_truncation(prod, before_waste, keep) or not f.any()
-            V.check("land_identity", sub, {"branch": branch, "kind": "greenhouse_fraction_not_subtracted"},
-                    lambda: _wit(r, month=i), "outdoor output (truncated) does not carry the (1 - greenhouse fraction) factor")
+            verdict = "value"
+        V.check("land_identity", verdict is None, {"branch": branch, "kind": verdict},
+                lambda: _wit(r, month=i, production=float(prod[i]), grown=float(grown[i]), greenhouse_fraction=float(f[i]),
+                             expected=float(want[i]),
+                             production_over_grown_after_waste=float(prod[i] / (grown[i] * keep)) if grown[i] * keep else None,
+                             expected_ratio=float(1 - f[i])),
+                "outdoor output is not the amount grown x (1 - greenhouse fraction) x (1 - distribution waste)")
 
     # ---- no quantisation
     V.check("no_quantisation", r.raw_dtype["outdoor_crops"].startswith("float"), {"series": "outdoor_crops", "kind": "dtype", "branch": branch},
@@ -211,8 +210,6 @@ def check_never_lowers(a, b, clause, V):
             if (full >= xa * (1 - RTOL)).all() and (explained_by_truncation(xb, ref["_grown"] * (1 - ref["_gh_fraction"]), keep)
                                                     or explained_by_truncation(xb, ref["_grown"], keep)):
                 cause = "integer_truncation"
-            elif close(xa, c08.reference(a.inputs, a.time_inputs)["outdoor_crops"]) and a.inputs["ADD_GREENHOUSES"]:
-                cause = "partner_not_reduced_by_greenhouse_fraction"
     i = int(np.argmax(np.where(low, xa - xb, -np.inf))) if low.any() else None
     V.check(clause, ok, {"pair": "%s>%s" % (a.job["options"]["scenario"], b.job["options"]["scenario"]), "cause": cause},
             lambda: dict(_wit(b, partner_job=a.job.get("tag")), month=i, without=float(xa[i]), with_=float(xb[i]), months_lower=int(low.sum())),
